@@ -77,8 +77,8 @@ def last_step_error(obs):
 def case_term(spec, obs):
     globs = []
     for g in obs["globs"]:
-        globs.append("{| gl_pattern := %s; gl_err := %s; gl_matches := %s |}" % (
-            lit(g["pattern"]), opt(g.get("err")), lst([m["clean"] for m in (g.get("matches") or [])])))
+        globs.append("{| gl_pattern := %s; gl_goquoted := %s; gl_err := %s; gl_matches := %s |}" % (
+            lit(g["pattern"]), lit(g.get("goquoted") or json.dumps(g["pattern"], ensure_ascii=False)), opt(g.get("err")), lst([m["clean"] for m in (g.get("matches") or [])])))
     files = []
     for path, fi in (obs.get("files") or {}).items():
         if "read_err" in fi:
@@ -228,7 +228,7 @@ def _unflatten(rr):
 # ---- the same canonical lines from the real observation ----
 
 def b(x):
-    return x.encode("utf-8") if isinstance(x, str) else x
+    return x.encode("utf-8", "surrogateescape") if isinstance(x, str) else x
 
 
 def show_prim(v):
@@ -285,6 +285,8 @@ def real_front_lines(front):
 
 def wrote(obs):
     a, bf = obs["out_after"], obs["out_before"]
+    if "out_touched" in obs:
+        return bool(a["exists"] and not a["is_dir"] and obs["out_touched"])
     return a["exists"] and not a["is_dir"] and (not bf["exists"] or a.get("hash") != bf.get("hash"))
 
 
